@@ -120,7 +120,7 @@ def search(acc: Acc, tier, shard, nshards):
         st_ = {}
         doc = model.any_document(model.Gen(ch, prof, st_))
         canon = render.render(doc).text
-        surf = render.Surface(ch, stats=st_)
+        surf = render.Surface(ch, stats=st_, numbers=True)
         fancy = render.render(doc, surf).text
         counter["i"] += 1
         tags = special(doc)
